@@ -1,12 +1,12 @@
 package props
 
 import (
-	"sync"
-	"reflect"
 	"fmt"
 	"math"
+	"reflect"
 	"sort"
 	"strings"
+	"sync"
 	"time"
 	"unicode"
 	"unicode/utf8"
